@@ -34,7 +34,7 @@ type fnCtx struct {
 	entryHeap map[string]string
 	entryAlloc string
 	paths    int
-	inputs   []string
+	inputs   []inputTerm
 	ordinals map[ssa.Instruction]int
 	cellOf   map[*ssa.Alloc]*Cell
 	returns  int
@@ -127,11 +127,7 @@ func (E *Engine) entryState(c *fnCtx, suffix string) *State {
 		st.env[p.Name()] = v
 		c.params[p.Name()] = v
 		c.paramList = append(c.paramList, v)
-		for _, l := range leaves(v) {
-			if l.Sort == SInt || l.Sort == SBool {
-				c.inputs = append(c.inputs, l.S)
-			}
-		}
+		c.inputs = append(c.inputs, E.inputTerms(st, p.Name()+suffix, v)...)
 	}
 	for _, fv := range fn.FreeVars {
 		v := E.freshVal(fv.Type(), "fv:"+fv.Name()+suffix, &facts)
@@ -889,6 +885,15 @@ func (E *Engine) valEq(st *State, x, y *Val) string {
 		if sh.Kind == "slice" {
 			// only s == nil is legal
 			return eq(x.F[0].S, y.F[0].S)
+		}
+		if sh.Kind == "iface" {
+			// comparison with the nil interface: the type tag decides
+			if y.F[0].S == "0" && y.F[1].S == "0" {
+				return eq(x.F[0].S, "0")
+			}
+			if x.F[0].S == "0" && x.F[1].S == "0" {
+				return eq(y.F[0].S, "0")
+			}
 		}
 		var cs []string
 		for i := range x.F {
